@@ -924,4 +924,39 @@ example : let l := Msg.run (Msg.init 0 [{ maxRtx := 1 }]) (gevs.take 6)
     (abs l.q).map (·.deadline) = [6000] ∧ l.now = 6000 ∧
     (abs (Msg.prepareCore l).1.q).map (·.deadline) = [9000] ∧ (Msg.prepareCore l).2 = 3000 := by decide
 
+/-! ### where punctuality comes from: sleeping no longer than the returned wait -/
+open Coap.Sim Coap.Sched in
+/-- **sleep_returned_wait_ok** (full): after every run over the C06 alphabet, let `coap_io_prepare_io` run and return the
+wait `w`; moving the clock to any `t ≤ now + w` does not move it past a pending deadline of any session (`m_due_fires`:
+nothing is due after the I/O step; `wait_le_every_deadline`: `w` does not exceed the time to any deadline — the
+32-bit reduction only makes it smaller).  This is `EvClock` for the `setNow` that follows. -/
+theorem sleep_returned_wait_ok (now0 : Nat) (sess : List Msg.Sess) (evs : List Msg.Ev)
+    (hs : ∀ se ∈ sess, SessOk se) (hin : RunG (Msg.init now0 sess) evs) :
+    let r := Msg.prepareCore (Msg.run (Msg.init now0 sess) evs)
+    ∀ t, t ≤ r.1.now + r.2 → ∀ e ∈ abs r.1.q, t ≤ e.deadline := by
+  intro r t ht e he
+  have h1 := m_due_fires now0 sess evs hs hin e he
+  have h2 := (wait_le_every_deadline (Msg.run (Msg.init now0 sess) evs)).1 e he
+  simp only [r] at ht
+  omega
+
+open Coap.Sim Coap.Sched in
+/-- **punctual_of_clock** (full): a run over the C06 alphabet in which the clock is never moved past a pending
+deadline (`ClockOk` — by `sleep_returned_wait_ok` what an application gets that sleeps no longer than the wait the
+library returned and calls `coap_io_prepare_io` after each `coap_send`) is punctual: submissions, arrivals, I/O steps,
+the NSTART gate and the due loop themselves never leave an overdue node behind.  So `m_schedule_all`,
+`m_pending_on_schedule`, `m_giveup_after_all_retransmissions` hold for every such run. -/
+theorem punctual_of_clock (now0 : Nat) (sess : List Msg.Sess) (evs : List Msg.Ev)
+    (hs : ∀ se ∈ sess, SessOk se) (hin : RunG (Msg.init now0 sess) evs) (hck : ClockOk (Msg.init now0 sess) evs) :
+    Punctual (Msg.init now0 sess) evs :=
+  punctual_of_clockOk (P := fun _ _ _ => True) (gpar_of sess hs) evs _ (finv_init True _ now0 sess hs)
+    (fun _ e he => by simp [Msg.init, abs, absFrom] at he) hin hck (fun _ _ _ _ => trivial)
+
+open Coap.Sim Coap.Sched in
+/-- non-vacuity of `punctual_of_clock` / `sleep_returned_wait_ok`: the gated witness run never moves the clock past a
+pending deadline; after its first 5 events (I/O step at 2000) the wait is 4000 and the next deadline 6000 -/
+example : ClockOk (Msg.init 0 [{ maxRtx := 1 }]) gevs ∧
+    (let r := Msg.prepareCore (Msg.run (Msg.init 0 [{ maxRtx := 1 }]) (gevs.take 5))
+     r.1.now = 2000 ∧ r.2 = 4000 ∧ (abs r.1.q).map (·.deadline) = [6000]) := by decide
+
 end Coap.C06
